@@ -122,11 +122,13 @@ func runC09(p *eng.Prog, r *eng.Report, tier string) {
 			}
 		}
 		c09SingleClose(c, f)
+		nilLocation(c, "C09.2", f)
 		c09Index(c, f, why[f])
 		c09IterCurrent(c, f, why[f])
 	}
 	r.Note("bare assertions in scope: %d, explicit panics in scope: %d", nAssert, nPanic)
 	chanRules(c, "C09.4", fns, why)
+	goroutineEndsItsTracking(c, "C09.24")
 	// C09.18 (= C06.6) every response is released exactly once: an unreleased
 	// response wedges the serve loop, a second release panics
 	respRelease(c, "C09.18", 8)
@@ -297,6 +299,43 @@ func c09IndexID(c *cx, rid string, f *eng.Fn, via string) {
 				}
 			}
 			c.r.Check(rid, f, "constant index "+f.Norm(e, &pt), "E-idx(b): a constant index into a slice is dominated by a fact about its length", e.Pos(), okg, "index out of range if the slice is shorter (no dominating length test); reached via "+via)
+		case *ast.SliceExpr:
+			// (e) a positive constant bound of a slice expression on a string or
+			// slice needs a dominating fact about the operand's length
+			switch info.TypeOf(e.X).Underlying().(type) {
+			case *types.Slice:
+			case *types.Basic:
+			default:
+				return true
+			}
+			for _, b := range []ast.Expr{e.Low, e.High, e.Max} {
+				if b == nil {
+					continue
+				}
+				k, isConst := f.ConstInt(b)
+				if !isConst || k <= 0 {
+					continue
+				}
+				pt, ok := g.Where(e)
+				if !ok || !g.Live(pt) {
+					continue
+				}
+				xs := f.Norm(e.X, &pt)
+				okg := mentions(pt, "builtin.len("+xs+")") || (k == 1 && mentions(pt, "rangenext("+xs+")")) || mentions(pt, "HasPrefix("+xs) || mentions(pt, "HasSuffix("+xs) || shortCircuitLen(f, e, xs, pt)
+				if cs, isStr := f.ConstStr(e.X); isStr && int64(len(cs)) >= k {
+					okg = true
+				}
+				if v := rootLocal(f, e.X); v != nil && !okg {
+					if d := g.UniqueDef(v, pt); d != nil && d.RHS != nil {
+						if r, isCall := ast.Unparen(d.RHS).(*ast.CallExpr); isCall && f.CalleeID(r) == "builtin.make" && len(r.Args) >= 2 {
+							if n, ok := f.ConstInt(r.Args[1]); ok && k <= n {
+								okg = true
+							}
+						}
+					}
+				}
+				c.r.Check(rid, f, "constant slice bound "+f.Norm(e, &pt), "E-idx(e): a constant bound of a slice expression is dominated by a fact about the operand's length", e.Pos(), okg, "slice bounds out of range if the operand is shorter than "+itoa(int(k))+" (no dominating length test); reached via "+via)
+			}
 		case *ast.CallExpr:
 			id := f.CalleeID(e)
 			// (c) make with a subtractive size
@@ -622,4 +661,125 @@ func fileGenerated(f *eng.Fn, pos token.Pos) bool {
 		}
 	}
 	return false
+}
+
+// nilLocation: time.Time.In, time.Date and time.ParseInLocation panic on a nil
+// *time.Location ("time: missing Location in call to ..."). Their location
+// operand is provably non-nil: time.UTC / time.Local, the result of
+// Time.Location() or time.FixedZone, or a local all of whose reaching
+// definitions are one of these. (A location that stays nil when the peer left
+// an optional element out is a peer-controlled panic.)
+func nilLocation(c *cx, id string, f *eng.Fn) {
+	argOf := map[string]int{"time.Time.In": 0, "time.Date": 7, "time.ParseInLocation": 2}
+	g := f.Graph()
+	var nonNil func(e ast.Expr, pt eng.Point, depth int) bool
+	nonNil = func(e ast.Expr, pt eng.Point, depth int) bool {
+		e = ast.Unparen(e)
+		switch x := e.(type) {
+		case *ast.SelectorExpr:
+			n := f.Norm(x, nil)
+			return n == "var:time.UTC" || n == "var:time.Local" || n == "time.UTC" || n == "time.Local"
+		case *ast.CallExpr:
+			switch f.CalleeID(x) {
+			case "time.Time.Location", "time.FixedZone":
+				return true
+			}
+		case *ast.Ident:
+			v, _ := f.Info().ObjectOf(x).(*types.Var)
+			if v == nil || !eng.IsLocal(v) || depth > 3 {
+				return false
+			}
+			ds := g.ReachingDefs(v, pt)
+			if len(ds) == 0 {
+				return false
+			}
+			for _, d := range ds {
+				if d.RHS == nil || !nonNil(d.RHS, d.At, depth+1) {
+					return false
+				}
+			}
+			return true
+		}
+		return false
+	}
+	for _, cl := range f.AllCalls() {
+		ix, ok := argOf[f.CalleeID(cl)]
+		if !ok || ix >= len(cl.Args) {
+			continue
+		}
+		pt, _ := g.Where(cl)
+		c.r.Check(id, f, "location operand of "+f.CalleeID(cl), "the *time.Location handed to "+f.CalleeID(cl)+" is provably non-nil (it panics on nil)", cl.Pos(), nonNil(cl.Args[ix], pt, 0), "the location "+types.ExprString(cl.Args[ix])+" may be nil here: time: missing Location in call")
+	}
+}
+
+// goroutineEndsItsTracking (C09.24 / C06.22): a helper that registers a query in
+// a table the serve loop consults (history.Handler.tracked: HandleMessage
+// sends every result of a tracked query to the iterator's channel, under the
+// table's lock) and starts a goroutine that waits for the end of the query:
+// that goroutine withdraws the entry - and thereby closes the iterator's
+// channel - on EVERY exit, also when the query was refused or timed out.
+// Otherwise Iter.Next blocks for ever and a late result for the stale id
+// blocks HandleMessage, i.e. Serve, inside the handler's mutex.
+func goroutineEndsItsTracking(c *cx, id string) {
+	f := c.fn(id, "history", "(*Handler).FetchIQ")
+	if f == nil {
+		return
+	}
+	registers := false
+	for _, mu := range f.MapUpdates() {
+		if cls, ok := f.FieldClass(mu.Map); ok && cls == "history.Handler.tracked" && !mu.Delete {
+			registers = true
+		}
+	}
+	c.r.Check(id, f, "query registered", "the fetch helper registers its iterator in Handler.tracked", f.Pos(), registers, "no store into Handler.tracked")
+	n := 0
+	var gos []*ast.GoStmt
+	f.WalkBody(func(nd ast.Node) bool {
+		if gs, ok := nd.(*ast.GoStmt); ok {
+			gos = append(gos, gs)
+		}
+		return true
+	})
+	for _, gs := range gos {
+		lit, ok := ast.Unparen(gs.Call.Fun).(*ast.FuncLit)
+		if !ok {
+			continue
+		}
+		lf := c.p.FnOfLit(lit)
+		if lf == nil {
+			continue
+		}
+		n++
+		lg := lf.Graph()
+		isRemove := func(q eng.Point, nd ast.Node) bool {
+			return lf.ContainsCall(nd, "history.Handler.remove") != nil || lf.ContainsCall(nd, "builtin.delete") != nil
+		}
+		var exits []eng.Point
+		for _, rs := range lg.Returns {
+			if p, ok := lg.Where(rs); ok {
+				exits = append(exits, p)
+			}
+		}
+		exits = append(exits, lg.Exits()...)
+		bad := ""
+		for _, ex := range exits {
+			if lg.Reachable(lg.Entry(), ex, nil, isRemove) {
+				pos := lit.Body.Rbrace
+				if ex.I < len(lg.Blocks[ex.B].Nodes) {
+					pos = lg.Blocks[ex.B].Nodes[ex.I].Pos()
+				}
+				bad = "the exit at " + c.p.Pos(pos) + " is reachable without Handler.remove"
+			}
+		}
+		deferred := false
+		for _, d := range lg.Defers {
+			if lf.ContainsCall(d, "history.Handler.remove") != nil {
+				if dp, ok := lg.Where(d); ok && dp.B == 0 {
+					deferred = true
+				}
+			}
+		}
+		c.r.Check(id, lf, "tracking withdrawn on every exit of the waiting goroutine", "E-res: every exit of the goroutine that waits for the end of the query passes Handler.remove (which closes the iterator's channel)", lit.Pos(), bad == "" || deferred, bad+": the iterator never ends and a late result wedges the serve loop")
+	}
+	c.r.Floor(id, "goroutines started by the fetch helper", n, 1)
 }
